@@ -468,6 +468,11 @@ def verify_function(interp, contract: Contract, inst: Instance, prop_prefix=""):
         c = SpecCtx(interp, ctx, contract, mode="verify")
         want = run_outcome(lambda: contract.spec(c, *pristine_args, **pristine_kwargs))
         compare_outcomes(interp, ctx, got, want)
+        # C09 laziness typestate: with a Dask-backed input no forcing operation (compute, persist,
+        # np.asarray, bool/int/float of a Dask value, np.nditer over Dask data) may have been executed
+        if has_dask_input(args, kwargs) and not getattr(contract, "forcing_allowed", False):
+            forces = [e[1] for e in ctx.events if e[0] == "force"]
+            ctx.oblige("dask.no-forcing-operation", not forces, "typestate", {"forcing": forces[:5]})
         if contract.theorems is not None and got.kind == "return" and want.kind == "return":
             contract.theorems(c, got.value, *pristine_args, **pristine_kwargs)
         check_inputs_unchanged(interp, ctx, args, kwargs, pristine_args, pristine_kwargs)
@@ -495,6 +500,31 @@ def verify_function(interp, contract: Contract, inst: Instance, prop_prefix=""):
             rep.obligations.append(ob)
     rep.gen_time = time.time() - t0
     return rep
+
+
+def has_dask_input(args, kwargs):
+    found = []
+
+    def walk(v):
+        if isinstance(v, SArr):
+            if v.backend == "dask":
+                found.append(v)
+        elif isinstance(v, Obj):
+            for x in v.fields.values():
+                walk(x)
+        elif isinstance(v, Qty):
+            walk(v.val)
+        elif isinstance(v, (list, tuple)):
+            for x in v:
+                walk(x)
+        elif isinstance(v, dict):
+            for x in v.values():
+                walk(x)
+    for a in args:
+        walk(a)
+    for a in kwargs.values():
+        walk(a)
+    return bool(found)
 
 
 def mark_inputs(ctx, args, kwargs):
